@@ -49,6 +49,19 @@ def rto_cases(draw, tier="quick"):
          "layout": draw(st.sampled_from(gen.LAYOUTS)),
          # integer-typed variance vectors (noise variances written as ints)
          "int_vars": draw(st.sampled_from([False, False, False, True]))}
+    # the same problem in other physical units: data, noise and prior standard deviations and the prior mean all times 1e5
+    c["unit_pow"] = draw(st.sampled_from([0, 0, 0, 5]))
+    if draw(st.integers(0, 11)) == 0:
+        # a larger, less well conditioned problem (second-order GMRF prior on 24 / 40 nodes, half as many data): the inner solver
+        # needs many more iterations than there are unknowns in floating point; entries come from a seeded stream
+        n = draw(st.sampled_from([24, 40]))
+        rs = np.random.RandomState(draw(st.integers(0, 10 ** 6)))
+        m = n // 2
+        liks = [{"m": m, "A": rs.uniform(-1, 1, (m, n)).tolist(), "form": "cov_scalar", "var": [float(10 ** rs.uniform(-2, -1))] * m,
+                 "G": np.zeros((m, m)).tolist(), "data": rs.uniform(-2, 2, m).tolist(), "backing": draw(st.sampled_from(["matrix", "function"]))}]
+        c.update(n=n, liks=liks, prior="gmrf", gmrf_order=2, pmean_kind="zero", pmean=[0.0] * n, pvar=[1.0] * n, PG=np.zeros((n, n)).tolist(),
+                 x0=rs.uniform(-2, 2, n).tolist(), x0b=rs.uniform(-2, 2, n).tolist(), shared_model=False, int_vars=False, large=True,
+                 prior_reassigned=False)
     if c["shared_model"] and len(liks) > 1:
         for lk in liks[1:]:
             lk["m"], lk["A"], lk["backing"] = liks[0]["m"], liks[0]["A"], liks[0]["backing"]
@@ -56,6 +69,7 @@ def rto_cases(draw, tier="quick"):
             lk["G"] = [row[:liks[0]["m"]] + [0.0] * max(0, liks[0]["m"] - len(row)) for row in (lk["G"] + [[0.0] * liks[0]["m"]] * liks[0]["m"])[:liks[0]["m"]]]
             lk["data"] = (lk["data"] * 6)[:liks[0]["m"]]
     if c["int_vars"]:
+        c["unit_pow"] = 0
         for lk in liks:
             if lk["form"] == "cov_vector":
                 lk["var"] = [float(max(1, round(4 * v))) for v in lk["var"]]
@@ -68,12 +82,13 @@ def rto_cases(draw, tier="quick"):
 def build_rto_target(c):
     import cuqi
     n = c["n"]
-    mu = A(c["pmean"]) if c["pmean_kind"] == "vector" else (np.full(n, float(c["pmean"][0])) if c["pmean_kind"] == "scalar" else np.zeros(n))
+    U = 10.0 ** c.get("unit_pow", 0)
+    mu = U * (A(c["pmean"]) if c["pmean_kind"] == "vector" else (np.full(n, float(c["pmean"][0])) if c["pmean_kind"] == "scalar" else np.zeros(n)))
     # a scalar mean is handed over as a scalar (broadcast by the distribution over its geometry)
-    mu_arg = (lambda: float(c["pmean"][0])) if c["pmean_kind"] == "scalar" else (lambda: mu.copy())
+    mu_arg = (lambda: U * float(c["pmean"][0])) if c["pmean_kind"] == "scalar" else (lambda: mu.copy())
     if c["prior"] == "gauss":
         pkw, Sx = c15.form_arg(c["pform"], c["pvar"], c["PG"])
-        ps = 10.0 ** c.get("pscale_pow", 0)
+        ps = 10.0 ** c.get("pscale_pow", 0) * U
         if ps != 1.0:
             (key, val), = pkw.items()
             fac = {"cov": ps ** 2, "prec": ps ** -2, "sqrtcov": ps, "sqrtprec": 1 / ps}[key]
@@ -95,11 +110,11 @@ def build_rto_target(c):
             x = cuqi.distribution.GMRF(mu * 0.5 + 0.1, c["gmrf_prec"] * 3.0, bc_type="zero", order=c["gmrf_order"], name="x")
             _ = (x.sqrtprec, x.logd(np.zeros(n)), x.sqrtprecTimesMean)
             x.mean = mu.copy()
-            x.prec = c["gmrf_prec"]
+            x.prec = c["gmrf_prec"] / U ** 2
         else:
-            x = cuqi.distribution.GMRF(mu.copy(), c["gmrf_prec"], bc_type="zero", order=c["gmrf_order"], name="x")
+            x = cuqi.distribution.GMRF(mu.copy(), c["gmrf_prec"] / U ** 2, bc_type="zero", order=c["gmrf_order"], name="x")
         D = c20.ref_D(n, "zero", c["gmrf_order"])
-        Pinv = c["gmrf_prec"] * D.T @ D
+        Pinv = c["gmrf_prec"] / U ** 2 * D.T @ D
     ys, parts = [], []
     shared = None
     shared_applied = None
@@ -114,6 +129,10 @@ def build_rto_target(c):
             model = cuqi.model.LinearModel((lambda M: (lambda v: M @ v))(Am), (lambda M: (lambda w: M.T @ w))(Am), range_geometry=m, domain_geometry=n)
         shared = model
         nkw, Se = c15.form_arg(lk["form"], lk["var"], lk["G"])
+        if U != 1.0:
+            (key, val), = nkw.items()
+            nkw = {key: val * {"cov": U ** 2, "prec": U ** -2, "sqrtcov": U, "sqrtprec": 1 / U}[key]}
+            Se = Se * U ** 2
         if c.get("int_vars") and lk["form"] == "cov_vector":
             nkw = {"cov": np.array([int(v) for v in lk["var"]])}
         # (the forward model applied to x is built once and re-used when the likelihoods share it: one model object, several data sets)
@@ -123,9 +142,9 @@ def build_rto_target(c):
             Ax = model(x)
         shared_applied = Ax
         ys.append(cuqi.distribution.Gaussian(Ax, **nkw, geometry=m, name=f"y{i}"))
-        parts.append((Am, np.linalg.inv(Se), A(lk["data"])))
+        parts.append((Am, np.linalg.inv(Se), U * A(lk["data"])))
     J = cuqi.distribution.JointDistribution(*ys, x)
-    target = J(**{f"y{i}": gen.relayout(A(lk["data"]), c.get("layout", "plain")) for i, lk in enumerate(c["liks"])})
+    target = J(**{f"y{i}": gen.relayout(U * A(lk["data"]), c.get("layout", "plain")) for i, lk in enumerate(c["liks"])})
     Lam = Pinv + sum(Am.T @ Gi @ Am for Am, Gi, b in parts)
     rhs = Pinv @ mu + sum(Am.T @ Gi @ b for Am, Gi, b in parts)
     return target, Lam, rhs, mu, parts
@@ -192,7 +211,8 @@ def _run_rto(c, rec):
     tags = {"interface": c["interface"], "nlik": nl, "prior": c["prior"], "pmean": c["pmean_kind"],
             "backing": "+".join(sorted(set(lk["backing"] for lk in c["liks"]))), "sparse_switch": c.get("sparse_switch", "below"),
             "pscale_pow": c.get("pscale_pow", 0), "prior_reassigned": bool(c.get("prior_reassigned")),
-            "shared_model": bool(c.get("shared_model")) and nl > 1, "int_vars": bool(c.get("int_vars"))}
+            "shared_model": bool(c.get("shared_model")) and nl > 1, "int_vars": bool(c.get("int_vars")), "unit_pow": c.get("unit_pow", 0),
+            "large": bool(c.get("large"))}
     if rec.classify(tags, nontriv):
         return
     refused, built = refuses(lambda: build_rto_target(c))
@@ -219,10 +239,12 @@ def _run_rto(c, rec):
         e[i] = 1.0
         B[:, i] = step(e, x0) - a
     e = np.cos(1.0 + np.arange(k))
-    require(close(step(e, x0), a + B @ e, 1e-7), "LinearRTO: the new state is not an affine function of the normal perturbation")
+    require(maxdiff(step(e, x0), a + B @ e) <= 1e-7 * (float(np.max(np.abs(a))) + float(np.max(np.abs(B))) * k),
+            "LinearRTO: the new state is not an affine function of the normal perturbation")
     require(np.max(np.abs(a - xstar) / sd) <= 1e-6 * max(1.0, np.max(np.abs(xstar) / sd)),
             f"LinearRTO ({c['interface']}): offset of the draw is not the posterior mean", got=a, want=xstar)
-    require(close(B @ B.T, C, 1e-6), f"LinearRTO ({c['interface']}): linear part does not reproduce the posterior covariance", got=B @ B.T, want=C)
+    require(maxdiff(B @ B.T, C) <= 1e-6 * float(np.max(np.abs(C))), f"LinearRTO ({c['interface']}): linear part does not reproduce the posterior covariance",
+            got=B @ B.T, want=C)
     # irrespective of the current state
     a2 = step(np.zeros(k), x0b)
     require(np.max(np.abs(a2 - a) / sd) <= 1e-6 * max(1.0, np.max(np.abs(a) / sd)), "LinearRTO: the draw depends on the current state", a=a, a2=a2)
